@@ -63,7 +63,9 @@ def deferred_adders(facts, adt):
     if not r['deferred']:
         return out
     for b in adt_bodies(facts, adt):
-        if facts.view in ('i', 'is', 'p', 'ps') and b.vis not in ('pub', None) and b.impl_trait is None:
+        from ..inline import _remove_routines
+        if facts.view in ('i', 'is', 'p', 'ps') and b.vis not in ('pub', None) and b.impl_trait is None \
+                and b.base_uid not in _remove_routines(facts):
             continue   # a private helper: in this view it is judged as part of each caller it is inlined into
         it = interp(facts, b)
         sites = [bb for bb in direct_adding_sites(facts, it, r['deferred']) if not _is_rebuild(it, bb, r['deferred'])]
